@@ -755,3 +755,99 @@ def rule_extra_props(ctx, floor=8):
 def _assigned_via_super(init, names):
     s = src_of(init.node)
     return "super().__init__" in s or "setattr" in s
+
+
+# ----------------------------------------------------- collision-provenance
+def _inner_attr(node):
+    """'self' / '<name>' if node is `<x>._inner_inds`."""
+    if isinstance(node, ast.Attribute) and node.attr == "_inner_inds" and isinstance(node.value, ast.Name):
+        return node.value.id
+    return None
+
+
+def _is_inner_intersection(expr, a, b):
+    """Is ``expr`` provably a subset of  a._inner_inds ∩ b._inner_inds ?"""
+    want = {a, b}
+    if isinstance(expr, ast.BinOp) and isinstance(expr.op, ast.BitAnd):
+        return {_inner_attr(expr.left), _inner_attr(expr.right)} == want
+    if isinstance(expr, ast.Call) and isinstance(expr.func, ast.Attribute) and expr.func.attr == "intersection" and len(expr.args) == 1:
+        return {_inner_attr(expr.func.value), _inner_attr(expr.args[0])} == want
+    if isinstance(expr, ast.Call) and dotted(expr.func) == "oset_intersection" and expr.args:
+        arg = expr.args[0]
+        if isinstance(arg, (ast.Tuple, ast.List)) and len(arg.elts) == 2:
+            return {_inner_attr(arg.elts[0]), _inner_attr(arg.elts[1])} == want
+    # oset(ix for ix in X._inner_inds if ix in Y._inner_inds)
+    comp = None
+    if isinstance(expr, ast.Call) and expr.args and isinstance(expr.args[0], (ast.GeneratorExp, ast.ListComp, ast.SetComp)):
+        comp = expr.args[0]
+    elif isinstance(expr, (ast.SetComp, ast.ListComp)):
+        comp = expr
+    if comp is not None and len(comp.generators) == 1:
+        g = comp.generators[0]
+        src = _inner_attr(g.iter)
+        filt = None
+        for c in g.ifs:
+            if isinstance(c, ast.Compare) and len(c.ops) == 1 and isinstance(c.ops[0], ast.In) and src_of(c.left) == src_of(g.target) == src_of(comp.elt):
+                filt = _inner_attr(c.comparators[0])
+        return src is not None and filt is not None and {src, filt} == want
+    return False
+
+
+def rule_collision_provenance(ctx):
+    r = RuleResult(
+        "collision-provenance",
+        "when networks are combined the only renaming applied to incoming tensors goes through a map whose keys "
+        "are provably a subset of (receiver inner labels) ∩ (incoming inner labels) and whose values are fresh "
+        "(rand_uuid()): outer labels are never renamed and distinct bonds never merged by the combining code",
+    )
+    f = ctx.prog.func("quimb.tensor.tensor_core", "TensorNetwork.add_tensor_network")
+    where = f"{f.module.relpath}:{f.lineno}"
+    me, other = f.posparams[0], f.posparams[1]
+    defs = {}
+    for n in ast.walk(f.node):
+        if isinstance(n, ast.Assign) and len(n.targets) == 1 and isinstance(n.targets[0], ast.Name):
+            defs.setdefault(n.targets[0].id, []).append(n.value)
+    renames = [c for c in ast.walk(f.node) if isinstance(c, ast.Call) and isinstance(c.func, ast.Attribute) and c.func.attr in ("reindex", "reindex_")]
+    renames += [c for c in ast.walk(f.node) if isinstance(c, ast.Call) and isinstance(c.func, ast.Attribute) and c.func.attr == "modify" and any(k.arg == "inds" for k in c.keywords)]
+    if not renames:
+        raise AnalysisError("add_tensor_network no longer renames clashing labels")
+    for c in renames:
+        m = c.args[0] if c.args else None
+        if not isinstance(m, ast.Name) or m.id not in defs:
+            r.bad(Finding("collision-provenance", "TensorNetwork.add_tensor_network", f"rename {src_of(c)[:50]} does not use a locally built map", where=where, operand="map"))
+            continue
+        ok_map = False
+        for d in defs[m.id]:
+            if const_value(d, 0) is None:
+                continue
+            if isinstance(d, ast.DictComp) and len(d.generators) == 1 and src_of(d.key) == src_of(d.generators[0].target) and src_of(d.value).replace(" ", "") == "rand_uuid()":
+                keys = d.generators[0].iter
+                cands = [keys] + (defs.get(keys.id, []) if isinstance(keys, ast.Name) else [])
+                cands = [x for x in cands if not (isinstance(x, ast.Constant))]
+                good = [x for x in cands if not isinstance(x, ast.Name)]
+                if good and all(_is_inner_intersection(x, me, other) for x in good):
+                    ok_map = True
+                    r.ok("TensorNetwork.add_tensor_network[rename map]", sample={"keys": src_of(good[0]), "values": "rand_uuid()"})
+                else:
+                    r.bad(Finding(
+                        "collision-provenance", "TensorNetwork.add_tensor_network",
+                        f"keys of the rename map come from `{src_of(good[0]) if good else src_of(keys)}`, which is not provably a subset of "
+                        f"{me}._inner_inds ∩ {other}._inner_inds: an outer label of either network could be renamed",
+                        where=where, operand="keys"))
+                    ok_map = True
+            else:
+                r.bad(Finding("collision-provenance", "TensorNetwork.add_tensor_network", f"rename map `{src_of(d)[:60]}` is not {{ix: rand_uuid() for ix in <clash>}}", where=where, operand="map-shape"))
+                ok_map = True
+        if not ok_map:
+            r.bad(Finding("collision-provenance", "TensorNetwork.add_tensor_network", "rename map has no recognisable definition", where=where, operand="map"))
+    # no other renaming reachable from the combining entry points
+    for name in ("add", "add_tensor", "combine", "__and__", "__or__", "__iand__", "__ior__"):
+        g = ctx.prog.cls("quimb.tensor.tensor_core", "TensorNetwork").methods.get(name)
+        if g is None or g.is_alias:
+            continue
+        bad = [c for c in ast.walk(g.node) if isinstance(c, ast.Call) and isinstance(c.func, ast.Attribute) and c.func.attr in ("reindex", "reindex_", "retag", "retag_", "mangle_inner_")]
+        if bad:
+            r.bad(Finding("collision-provenance", f"TensorNetwork.{name}", f"renames labels/tags while combining: {src_of(bad[0])[:50]}", where=f"{g.module.relpath}:{g.lineno}", operand=name))
+        else:
+            r.ok(f"TensorNetwork.{name}[no rename]")
+    return r
